@@ -349,6 +349,71 @@ theorem normal_ordered_sound_melF_tol (D : Nat) (hD : 0 < D) (tol : Rat) (h0 : 0
   exact melF_congr _ _ (wf_normalOrdered tol .fermion a) (wf_normalOrdered 0 .fermion a)
     (normal_ordered_exact_regime D hD tol h0 h1 .fermion trivial a la) out s
 
+/-- bosons, the tolerance the code uses (lattice inputs): every coefficient of
+`normal_ordered(A)·x^s` in the executable Spec equals that of `A·x^s`. -/
+theorem normal_ordered_sound_boson_spec_tol (D : Nat) (hD : 0 < D) (tol : Rat) (h0 : 0 ≤ tol) (h1 : tol * D ≤ 1)
+    (a : Op) (hv : ∀ e ∈ a, ∀ f ∈ e.1, f.2 < 2) (la : ∀ e ∈ a, Lat D e.2)
+    (s out : Spec.Mono) (hs : Trimmed s) (ho : Trimmed out) :
+    Spec.GV.coeff (Spec.applyOp .boson (normalOrdered tol .boson a) s) out =
+      Spec.GV.coeff (Spec.applyOp .boson a s) out := by
+  rw [← normal_ordered_sound_boson_spec a hv s out hs ho]
+  exact applyOp_coeff_congr .boson Spec.actB (fun _ _ => rfl) _ _
+    (wf_normalOrdered tol .boson a) (wf_normalOrdered 0 .boson a)
+    (normal_ordered_exact_regime D hD tol h0 h1 .boson trivial a la) s out
+
+/-- quadratures with Gaussian-integer `ħ`, the tolerance the code uses (lattice inputs). -/
+theorem quad_sound_hbar_spec_tol (D : Nat) (hD : 0 < D) (tol : Rat) (h0 : 0 ≤ tol) (h1 : tol * D ≤ 1)
+    (hbar : GQ) (hh : ∃ p q : Int, hbar.re = p ∧ hbar.im = q) (a : Op) (la : ∀ e ∈ a, Lat D e.2)
+    (s out : Spec.Mono) (hs : Trimmed s) (ho : Trimmed out) :
+    Spec.GV.coeff (Spec.applyOp (.quad hbar) (normalOrdered tol (.quad hbar) a) s) out =
+      Spec.GV.coeff (Spec.applyOp (.quad hbar) a s) out := by
+  rw [← quad_sound_hbar_spec hbar a s out hs ho]
+  exact applyOp_coeff_congr (.quad hbar) (Spec.actQuad hbar) (fun _ _ => rfl) _ _
+    (wf_normalOrdered tol (.quad hbar) a) (wf_normalOrdered 0 (.quad hbar) a)
+    (normal_ordered_exact_regime D hD tol h0 h1 (.quad hbar) hh a la) s out
+
+/-- quadratures with a fractional `ħ = (p + q i)/E` (e.g. 1/2), the tolerance the code uses. -/
+theorem quad_sound_hbar_spec_tol_fractional (D E K : Nat) (hE : 0 < E) (hD : 0 < D) (tol : Rat)
+    (h0 : 0 ≤ tol) (h1 : tol * ((D * E ^ K : Nat) : Rat) ≤ 1) (hbar : GQ)
+    (hh : ∃ p q : Int, hbar.re = (p : Rat) / E ∧ hbar.im = (q : Rat) / E)
+    (a : Op) (la : ∀ e ∈ a, Lat D e.2 ∧ e.1.length ≤ K)
+    (s out : Spec.Mono) (hs : Trimmed s) (ho : Trimmed out) :
+    Spec.GV.coeff (Spec.applyOp (.quad hbar) (normalOrdered tol (.quad hbar) a) s) out =
+      Spec.GV.coeff (Spec.applyOp (.quad hbar) a s) out := by
+  rw [← quad_sound_hbar_spec hbar a s out hs ho]
+  exact applyOp_coeff_congr (.quad hbar) (Spec.actQuad hbar) (fun _ _ => rfl) _ _
+    (wf_normalOrdered tol (.quad hbar) a) (wf_normalOrdered 0 (.quad hbar) a)
+    (normal_ordered_exact_regime_quad_fractional D E K hE hD tol h0 h1 hbar hh a la) s out
+
+/-- **canonicity at the tolerance the code uses** (fermions, lattice inputs): two FermionOperators
+denote the same operator iff the dictionaries the executed `normal_ordered` returns have equal
+coefficients. -/
+theorem canonicity_fermion_tol (D : Nat) (hD : 0 < D) (tol : Rat) (h0 : 0 ≤ tol) (h1 : tol * D ≤ 1)
+    (a b : Op) (va : ∀ e ∈ a, ∀ f ∈ e.1, f.2 < 2) (vb : ∀ e ∈ b, ∀ f ∈ e.1, f.2 < 2)
+    (la : ∀ e ∈ a, Lat D e.2) (lb : ∀ e ∈ b, Lat D e.2) :
+    (∀ s out, Spec.melF a out s = Spec.melF b out s) ↔
+      ∀ t, Dict.getD (normalOrdered tol .fermion a) t 0 = Dict.getD (normalOrdered tol .fermion b) t 0 := by
+  rw [canonicity_fermion a b va vb]
+  have ea := normal_ordered_exact_regime D hD tol h0 h1 .fermion trivial a la
+  have eb := normal_ordered_exact_regime D hD tol h0 h1 .fermion trivial b lb
+  constructor
+  · intro h t; rw [ea t, eb t]; exact h t
+  · intro h t; rw [← ea t, ← eb t]; exact h t
+
+/-- canonicity at the tolerance the code uses, bosons. -/
+theorem canonicity_boson_tol (D : Nat) (hD : 0 < D) (tol : Rat) (h0 : 0 ≤ tol) (h1 : tol * D ≤ 1)
+    (a b : Op) (va : ∀ e ∈ a, ∀ f ∈ e.1, f.2 < 2) (vb : ∀ e ∈ b, ∀ f ∈ e.1, f.2 < 2)
+    (la : ∀ e ∈ a, Lat D e.2) (lb : ∀ e ∈ b, Lat D e.2) :
+    (∀ s out, Trimmed s → Trimmed out →
+      Spec.GV.coeff (Spec.applyOp .boson a s) out = Spec.GV.coeff (Spec.applyOp .boson b s) out) ↔
+      ∀ t, Dict.getD (normalOrdered tol .boson a) t 0 = Dict.getD (normalOrdered tol .boson b) t 0 := by
+  rw [canonicity_boson a b va vb]
+  have ea := normal_ordered_exact_regime D hD tol h0 h1 .boson trivial a la
+  have eb := normal_ordered_exact_regime D hD tol h0 h1 .boson trivial b lb
+  constructor
+  · intro h t; rw [ea t, eb t]; exact h t
+  · intro h t; rw [← ea t, ← eb t]; exact h t
+
 -- non-vacuity: the extracted EQ_TOLERANCE admits the dyadic lattice 2^-26
 example : (0 : Rat) ≤ Generated.eqTolerance ∧ Generated.eqTolerance * ((2 ^ 26 : Nat) : Rat) ≤ 1 := by
   constructor <;> norm_num [Generated.eqTolerance]
